@@ -178,8 +178,33 @@ def walk(n):
 # ---------------------------------------------------------------------------
 # Coq rendering
 # ---------------------------------------------------------------------------
-def c_odid(d):
-    return "None" if d is None else f"(Some {H.coq_did(d)})"
+# per-case local node identities 1..n (smaller case files than the global allocation index; nodes are kept
+# alive by the harness, so id() is never reused)
+_LOCAL: dict[int, int] = {}
+
+
+def lid(node) -> int:
+    k = id(node)
+    if k not in _LOCAL:
+        _LOCAL[k] = len(_LOCAL) + 1
+    return _LOCAL[k]
+
+
+def coq_rt(node, U):
+    return f"(Tz {lid(node)} {H.coq_info(node, U)} {H.coq_list(coq_rt(c, U) for c in (node._children or []))})"
+
+
+def did_ix(st, d):
+    """index of a data_id in the case's table (None stays None)"""
+    if d is None:
+        return None
+    if isinstance(d, bool):
+        d = int(d)
+    key = (isinstance(d, str), d)
+    tab = st["dids"]
+    if key not in tab:
+        tab[key] = len(tab)
+    return tab[key]
 
 
 def c_oz(v):
@@ -205,7 +230,7 @@ class Prop:
     case_module = "CaseC09"
     case_vo = "theories/Cases/CaseC09.vo"
     run_fn = "run09"
-    shard = 25
+    shard = 19
     rule = ("trees with clones: every ordered forest with <= N nodes (N=4 quick, 5 thorough) under 5 labelings (distinct strings; clones in "
             "different parents; equal-comparing objects; explicit int/str data_ids and node_ids colliding with int data; falsy data 0 / '') "
             "x {as built, first node moved to the end, a clone removed and re-added} plus seeded random trees (<= 14 nodes quick, <= 30 "
@@ -243,6 +268,19 @@ class Prop:
 
     # ----- generation ------------------------------------------------------
     def descs(self, tier, rng):
+        # the larger random cases are spread evenly over the shards
+        small, big = [], []
+        for d in self._descs(tier, rng):
+            (big if d.get("mode") == "sample" else small).append(d)
+        step = max(1, len(small) // max(1, len(big)))
+        out = []
+        for i, d in enumerate(small):
+            out.append(d)
+            if i % step == step - 1 and big:
+                out.append(big.pop())
+        yield from out + big
+
+    def _descs(self, tier, rng):
         yield from CORPUS
         nmax = 4 if tier == "quick" else 5
         ks = [None, 1, 2, 3] if tier == "quick" else [None, 0, 1, 2, 3, 5]
@@ -264,7 +302,7 @@ class Prop:
                             continue
                         nodes = _label(shape, lab)
                         yield dict(univ=UNIV, calc=None, typed=False, nodes=nodes, ops=ops, rev=rev, mode="full", ks=_k(ks))
-        nrand = 30 if tier == "quick" else 300
+        nrand = 30 if tier == "quick" else 160
         nmaxr = 14 if tier == "quick" else 30
         for j in range(nrand):
             n = rng.randint(5, nmaxr)
@@ -289,7 +327,7 @@ class Prop:
                     ops.append(["add", rng.choice([-1] + list(range(n))), rng.randrange(nl), rng.choice([None, None, 7, "a"]),
                                 rng.choice([None, None, 5])])
             yield dict(univ=UNIV, calc=rng.choice([None, None, "name", "mod7"]), typed=typed, nodes=nodes, ops=ops, rev=rng.random() < 0.5,
-                       mode="sample", qseed=rng.randrange(1 << 30), nq=60 if tier == "quick" else 120,
+                       mode="sample", qseed=rng.randrange(1 << 30), nq=60 if tier == "quick" else 90,
                        ks=_k([None, 0, 1, 2, 3, 4, 5]))
 
     def shrink_candidates(self, desc):
@@ -307,8 +345,11 @@ class Prop:
 
     # ----- one case ---------------------------------------------------------
     def run(self, desc) -> Case:
+        _LOCAL.clear()
         tree, U = build_tree(desc)
         nodes = walk(tree._root)
+        for n in nodes:
+            lid(n)
         ctx = dict(pos={id(n): i for i, n in enumerate(nodes)})
         names = sorted({f"{n._data}" for n in nodes})
 
@@ -322,7 +363,7 @@ class Prop:
                              (lambda rx: lambda n: rx.fullmatch(f"{n._data}") is not None)(rx)))
         for pn in PREDS:
             fn = make_pred(pn, ctx)
-            table = [H.nid(n) for n in nodes if fn(n)]
+            table = [lid(n) for n in nodes if fn(n)]
             matchers.append((fn, "(MPred " + H.coq_list(H.z(i) for i in table) + ")", (lambda fn: lambda n: bool(fn(n)))(fn)))
         ident = [424243]                             # identity matches: a foreign int, an int, an EqObj, a PlainObj of the universe
         for typ in (int, H.EqObj, H.PlainObj):
@@ -413,7 +454,7 @@ class Prop:
             queries.append(("del", kq))
 
         # --- run the implementation, render, and check
-        st = dict(tree=tree, U=U, nodes=nodes, matchers=matchers, desc=desc)
+        st = dict(tree=tree, U=U, nodes=nodes, matchers=matchers, desc=desc, dids={}, keys=[])
         obs, coq_q, fails = [], [], []
         nsub = 0
         for q in queries:
@@ -423,15 +464,15 @@ class Prop:
                 res = [[self.exec_query(st, sq) for sq in row] for row in subs]
                 o = [[r[0] for r in row] for row in res]
                 pairs = [(sq, r[0]) for row, rr in zip(subs, res) for sq, r in zip(row, rr)]
-                cq = (f"(QNodeFindAll {H.nid(nodes[p])} {c_odid(None if data is None else calc_of(desc, data))} {c_oz(mi)} "
-                      f"{c_odid(did)} {H.coq_list(str(0 if k is None else k) for k in qks)})")
+                cq = (f"(QNodeFindAll {lid(nodes[p])} {c_oz(did_ix(st, None if data is None else calc_of(desc, data)))} {c_oz(mi)} "
+                      f"{c_oz(did_ix(st, did))} {H.coq_list(str(0 if k is None else k) for k in qks)})")
             elif q[0] == "TFA":
                 _, data, mi, did, qks = q
                 subs = [("tfa", data, mi, did, k) for k in qks]
                 res = [self.exec_query(st, sq) for sq in subs]
                 o = [r[0] for r in res]
                 pairs = [(sq, r[0]) for sq, r in zip(subs, res)]
-                cq = (f"(QTreeFindAll {c_odid(None if data is None else calc_of(desc, data))} {c_oz(mi)} {c_odid(did)} "
+                cq = (f"(QTreeFindAll {c_oz(did_ix(st, None if data is None else calc_of(desc, data)))} {c_oz(mi)} {c_oz(did_ix(st, did))} "
                       f"{H.coq_list(str(0 if k is None else k) for k in qks)})")
             else:
                 o, cq = self.exec_query(st, q)
@@ -444,15 +485,17 @@ class Prop:
                 if f and len(fails) < 3:
                     fails.append(f)
 
-        reg = H.coq_list(f"({H.z(int(k))}, {H.nid(v)})" for k, v in tree._node_by_id.items())
-        idx = H.coq_list(f"({H.coq_did(k)}, {H.coq_list(H.z(H.nid(x)) for x in v)})" for k, v in tree._nodes_by_data_id.items())
-        coq_input = (f"(C (St {H.coq_forest(tree._root, U)} {reg} {idx}) "
-                     f"{H.coq_list(m[1] for m in matchers)} {H.coq_list(coq_q)})")
+        reg = H.coq_list(f"({H.z(int(k))}, {lid(v)})" for k, v in tree._node_by_id.items())
+        idx = H.coq_list(f"({H.coq_did(k)}, {H.coq_list(H.z(lid(x)) for x in v)})" for k, v in tree._nodes_by_data_id.items())
+        forest = H.coq_list(coq_rt(c, U) for c in (tree._root._children or []))
+        dtab = H.coq_list(H.coq_did(d) for (_, d) in st["dids"])       # dict preserves insertion order = index order
+        coq_input = (f"(C (St {forest} {reg} {idx}) {H.coq_list(m[1] for m in matchers)} {dtab} "
+                     f"{H.coq_list(st['keys'])} {H.coq_list(coq_q)})")
         groups = {}
         for n in nodes:
             groups.setdefault((type(n._data_id).__name__, n._data_id), []).append(n)
         maxg = max((len(g) for g in groups.values()), default=0)
-        shuffled = any([H.nid(x) for x in tree._nodes_by_data_id.get(n._data_id, [])] != [H.nid(x) for x in g]
+        shuffled = any([lid(x) for x in tree._nodes_by_data_id.get(n._data_id, [])] != [lid(x) for x in g]
                        for (_, _), g in groups.items() for n in g[:1])
         nerr = str(obs).count('[1, ')
         return Case(desc=desc, coq_input=coq_input, impl_obs=[True, obs], oracle_fail="; ".join(fails) or None,
@@ -490,10 +533,10 @@ class Prop:
         kind = q[0]
 
         def ids(l):
-            return [H.nid(x) for x in l]
+            return [lid(x) for x in l]
 
         def onode(x):
-            return [] if x is None else [H.nid(x)]
+            return [] if x is None else [lid(x)]
 
         def dcalc(o):
             return None if o is None else calc_of(desc, o)
@@ -518,33 +561,35 @@ class Prop:
                 kw["max_results"] = k
                 r = call(lambda: nodes[p].find_all(*args, **kw))
                 o = [0, ids(r[1])] if r[0] == 0 else r
-                cq = (f"QNodeFindAll {H.nid(nodes[p])} {c_odid(dcalc(data))} {c_oz(mi)} {c_odid(did)} "
-                      f"{H.coq_bool(add_self)} {0 if k is None else k}")
+                cq = "unused"       # single nfa/tfa answers are rendered by their sweep
             elif kind == "nff":
                 r = call(lambda: nodes[p].find_first(*args, **kw))
                 o = [0, onode(r[1])] if r[0] == 0 else r
-                cq = f"QNodeFindFirst {H.nid(nodes[p])} {c_odid(dcalc(data))} {c_oz(mi)} {c_odid(did)}"
+                cq = f"QNodeFindFirst {lid(nodes[p])} {c_oz(did_ix(st, dcalc(data)))} {c_oz(mi)} {c_oz(did_ix(st, did))}"
             elif kind == "tfa":
                 kw["max_results"] = k
                 r = call(lambda: tree.find_all(*args, **kw))
                 o = [0, ids(r[1])] if r[0] == 0 else r
                 if r[0] == 0 and any(r[1] is g for g in tree._nodes_by_data_id.values()):
                     st.setdefault("aliased", []).append(q)
-                cq = f"QTreeFindAll {c_odid(dcalc(data))} {c_oz(mi)} {c_odid(did)} {0 if k is None else k}"
+                cq = "unused"
             else:
                 if node_id is not None:
                     kw["node_id"] = node_id
                 r = call(lambda: tree.find_first(*args, **kw))
                 o = [0, onode(r[1])] if r[0] == 0 else r
-                cq = f"QTreeFindFirst {c_odid(dcalc(data))} {c_oz(mi)} {c_odid(did)} {c_oz(node_id)}"
+                cq = f"QTreeFindFirst {c_oz(did_ix(st, dcalc(data)))} {c_oz(mi)} {c_oz(did_ix(st, did))} {c_oz(node_id)}"
             return o, "(" + cq + ")"
 
         kq = q[1]
         kobj = self.resolve_key(st, kq)
-        kc = key_coq(kobj, None if kobj is None else calc_of(desc, kobj))
+        kterm = key_coq(kobj, None if kobj is None else calc_of(desc, kobj))
+        if kterm not in st["keys"]:
+            st["keys"].append(kterm)
+        kc = st["keys"].index(kterm)
         if kind == "get":
             r = call(lambda: tree[kobj])
-            return ([0, H.nid(r[1])] if r[0] == 0 else r), f"(QGet {kc})"
+            return ([0, lid(r[1])] if r[0] == 0 else r), f"(QGet {kc})"
         if kind == "in":
             r = call(lambda: kobj in tree)
             return ([0, bool(r[1])] if r[0] == 0 else r), f"(QContains {kc})"
@@ -557,7 +602,7 @@ class Prop:
             r = call(lambda: t2.__delitem__(k2))
             if r[0] == 0:
                 left = {id(x) for x in walk(t2._root)}
-                gone = [H.nid(nodes[i]) for i, x in enumerate(n2) if id(x) not in left]
+                gone = [lid(nodes[i]) for i, x in enumerate(n2) if id(x) not in left]
                 return [0, gone], f"(QDel {kc})"
             return r, f"(QDel {kc})"
         raise ValueError(q)
@@ -569,7 +614,7 @@ class Prop:
         kind = q[0]
 
         def ids(l):
-            return [H.nid(x) for x in l]
+            return [lid(x) for x in l]
 
         def same_did(a, b):
             return a == b and isinstance(a, str) == isinstance(b, str)
@@ -669,7 +714,7 @@ class Prop:
                     exp = [0, cand[0]]
         if kind == "get":
             if exp[0] == 0:
-                exp = [0, H.nid(exp[1])]
+                exp = [0, lid(exp[1])]
             return None if o == exp else fail("tree[key]", exp)
         if kind == "del":
             if exp[0] == 0:
